@@ -223,15 +223,17 @@ theorem overlap_filter_pair_call (f : OverlapFilterObj) (tok : String → List T
 
 /-! ## `filter_candset` and `apply_matcher` -/
 
-/-- `filter_candset` of the four filters: valid arguments, every candidate key present in its table, and a candidate
+/-- `filter_candset` of the four filters: valid arguments, every candidate key present in its table (up to Python
+    equality: `PyMem`, `Cell.pyEq` — the lookups are Python dict lookups), and a candidate
     row referencing two PRESENT values one of which is not a string: TypeError. -/
 theorem filter_candset_nonstring_raises (k : FilterKind) (f : FilterObj) (tok : String → List Tok)
     (a : CandsetArgs) (cpu : Int) (c l r : Frame) (hv : validateCandset a = .ok (c, l, r))
-    (hl : ∀ cr ∈ c.rows, cr.cell (c.colIdx a.candLKey) ∈ l.col a.lKey)
-    (hr : ∀ cr ∈ c.rows, cr.cell (c.colIdx a.candRKey) ∈ r.col a.rKey)
+    (hl : ∀ cr ∈ c.rows, PyMem (cr.cell (c.colIdx a.candLKey)) (l.col a.lKey))
+    (hr : ∀ cr ∈ c.rows, PyMem (cr.cell (c.colIdx a.candRKey)) (r.col a.rKey))
     (hlen : c.rows.length < 2 ^ 40)
     (cr ls rs : Row) (hcr : cr ∈ c.rows) (hls : ls ∈ l.rows) (hrs : rs ∈ r.rows)
-    (hkl : keyOf l a.lKey ls = cr.cell (c.colIdx a.candLKey)) (hkr : keyOf r a.rKey rs = cr.cell (c.colIdx a.candRKey))
+    (hkl : (keyOf l a.lKey ls).pyEq (cr.cell (c.colIdx a.candLKey)) = true)
+    (hkr : (keyOf r a.rKey rs).pyEq (cr.cell (c.colIdx a.candRKey)) = true)
     (hpl : Present l a.lAttr ls) (hpr : Present r a.rAttr rs)
     (hns : ¬ ((valOf l a.lAttr ls).isStr = true ∧ (valOf r a.rAttr rs).isStr = true)) :
     filterCandset a (filterPairPy k f tok) cpu = .error .typeErr :=
@@ -258,12 +260,13 @@ theorem apply_matcher_nonstring_raises (a : MatcherArgs) (tk : TokObj) (toks : T
     is not a string ⇒ TypeError. -/
 theorem apply_matcher_nocache_nonstring_raises (a : MatcherArgs) (tk : TokObj) (toks : TokFn)
     (sim : SimArg → SimArg → PyV) (cpu : Int) (c l r : Frame) (hv : validateMatcher a (some tk) = .ok (c, l, r))
-    (hl : ∀ cr ∈ c.rows, cr.cell (c.colIdx a.candLKey) ∈ l.col a.lKey)
-    (hr : ∀ cr ∈ c.rows, cr.cell (c.colIdx a.candRKey) ∈ r.col a.rKey)
+    (hl : ∀ cr ∈ c.rows, PyMem (cr.cell (c.colIdx a.candLKey)) (l.col a.lKey))
+    (hr : ∀ cr ∈ c.rows, PyMem (cr.cell (c.colIdx a.candRKey)) (r.col a.rKey))
     (hlen : c.rows.length < 2 ^ 40)
     (hbig : ¬ (l.rows.length + r.rows.length < c.rows.length * 2))
     (cr ls rs : Row) (hcr : cr ∈ c.rows) (hls : ls ∈ l.rows) (hrs : rs ∈ r.rows)
-    (hkl : keyOf l a.lKey ls = cr.cell (c.colIdx a.candLKey)) (hkr : keyOf r a.rKey rs = cr.cell (c.colIdx a.candRKey))
+    (hkl : (keyOf l a.lKey ls).pyEq (cr.cell (c.colIdx a.candLKey)) = true)
+    (hkr : (keyOf r a.rKey rs).pyEq (cr.cell (c.colIdx a.candRKey)) = true)
     (hpl : Present l a.lAttr ls) (hpr : Present r a.rAttr rs)
     (hns : ¬ ((valOf l a.lAttr ls).isStr = true ∧ (valOf r a.rAttr rs).isStr = true)) :
     applyMatcher a (some tk) toks sim cpu = .error .typeErr :=
@@ -274,8 +277,8 @@ theorem apply_matcher_nocache_nonstring_raises (a : MatcherArgs) (tk : TokObj) (
     candidate keys present give a frame whatever the two columns hold. -/
 theorem apply_matcher_without_tokenizer_any_values (a : MatcherArgs) (toks : TokFn) (sim : SimArg → SimArg → PyV)
     (cpu : Int) (c l r : Frame) (hv : validateMatcher a none = .ok (c, l, r))
-    (hl : ∀ cr ∈ c.rows, cr.cell (c.colIdx a.candLKey) ∈ l.col a.lKey)
-    (hr : ∀ cr ∈ c.rows, cr.cell (c.colIdx a.candRKey) ∈ r.col a.rKey)
+    (hl : ∀ cr ∈ c.rows, PyMem (cr.cell (c.colIdx a.candLKey)) (l.col a.lKey))
+    (hr : ∀ cr ∈ c.rows, PyMem (cr.cell (c.colIdx a.candRKey)) (r.col a.rKey))
     (hlen : c.rows.length < 2 ^ 40) :
     ∃ fr, applyMatcher a none toks sim cpu = .ok fr := by
   obtain ⟨fr, h, _⟩ := applyMatcher_rows' a none toks sim cpu c l r hv hl hr hlen (fun h => by cases h)
